@@ -1,7 +1,18 @@
 (** C04 — message consensus needs 2/3 of snapshot power on identical evidence; the elected gas
-    estimate is the median.  Only statements closed by [exact]; proofs live in Cons/*Proofs.v. *)
-From Coq Require Import List ZArith.
-From Paloma Require Import Base.Num Cons.Median Cons.MedianProofs Cons.Quorum.
+    estimate is the median.  Only statements closed by [exact]; proofs live in Cons/*Proofs.v.
+
+    Reading aid.  [verify_evidence keqb gk ord sn evs] is libcons.VerifyEvidence: [sn] the snapshot
+    (validators with shares, first match wins, and the recorded total), [evs] the evidence list of
+    the message, [gk tag bytes] the group key (an ARBITRARY function: nothing is assumed about
+    sha256), [keqb] equality of keys (Go string ==), [ord] the order in which Go's map iteration
+    visits the groups (any permutation).  [power sn vs] is the sum of the snapshot shares of the
+    addresses [vs] (0 for outsiders); [backers keqb gk evs k] the validators whose evidence has key
+    [k]; [identical w e] = same proof type and same proof bytes.  The quorum inequality in the model
+    uses the constants translated from the source (Gen.C04.quorum_*_factor); the statements below
+    say 3 and 2, so they stop checking when the source says anything else. *)
+From Coq Require Import List ZArith Bool Permutation String.
+From Paloma Require Import Base.Num Cons.Median Cons.MedianProofs Cons.Quorum Cons.QuorumProofs.
+From Paloma Require Gen.C04.
 Import ListNotations.
 Open Scope Z_scope.
 
@@ -11,3 +22,161 @@ Theorem median_between_min_max : forall (s : list Z) (d : Z),
   list_min d s <= median64 s <= list_max d s.
 Proof. exact median64_between. Qed.
 Print Assumptions median_between_min_max.
+
+(** The even-count expression of palomath.Median that [median64] models (w[c-1] + (w[c]-w[c-1])/2
+    with every operation mod 2^64) is the one the source has now.  Any edit of that expression
+    makes this fail until the model has been looked at again. *)
+Theorem median_model_is_of_current_source :
+  Gen.C04.median_even_expr = "w[c-1] + (w[c]-w[c-1])/2.0"%string /\
+  median64 [9223372036854775808; 9223372036854775810] = 9223372036854775809.
+Proof. exact (conj eq_refl eq_refl). Qed.
+Print Assumptions median_model_is_of_current_source.
+
+(** The threshold, tied to the translated constants: the code's test is exactly
+    3*sum >= 2*total, i.e. sum >= ceil(2*total/3). *)
+Theorem quorum_is_two_thirds : forall (sn : snapshot) (s : Z),
+  consensus sn (Some s) = (Gen.C04.quorum_total_factor * sn_total sn <=? Gen.C04.quorum_sum_factor * s) /\
+  (Gen.C04.quorum_sum_factor = 3 /\ Gen.C04.quorum_total_factor = 2) /\
+  (consensus sn (Some s) = true <-> 2 * sn_total sn <= 3 * s) /\
+  (consensus sn (Some s) = true <-> (2 * sn_total sn + 2) / 3 <= s) /\
+  consensus sn None = false.
+Proof.
+  exact (fun sn s => conj eq_refl (conj (conj eq_refl eq_refl)
+           (conj (consensus_some_iff sn s) (conj (quorum_threshold_exact sn s) eq_refl)))).
+Qed.
+Print Assumptions quorum_is_two_thirds.
+
+(** A winner is one of the submitted proofs, and the validators whose evidence has the SAME KEY
+    as the winner hold at least 2/3 of the snapshot's total — for every key function, every
+    snapshot, every evidence list and every iteration order. *)
+Theorem winner_has_two_thirds_same_key :
+  forall (K : Type) (keqb : K -> K -> bool) (gk : Z -> Z -> K),
+  (forall a b, keqb a b = true <-> a = b) ->
+  forall (ord : list group -> list group) (sn : snapshot) (evs : list evidence) (w : evidence),
+  (forall gs, Permutation (ord gs) gs) ->
+  verify_evidence keqb gk ord sn evs = Winner w ->
+  In w evs /\ ev_bad w = false /\ existsb ev_bad evs = false /\
+  3 * power sn (backers keqb gk evs (ev_key gk w)) >= 2 * sn_total sn.
+Proof.
+  exact (fun K keqb gk Hk ord sn evs w Ho H =>
+    match @winner_same_key K keqb gk Hk ord sn evs w Ho H with
+    | conj a (conj b (conj c d)) => conj a (conj b (conj c (Z.le_ge _ _ d)))
+    end).
+Qed.
+Print Assumptions winner_has_two_thirds_same_key.
+
+(** With the key the code builds (type URL and hash [h] of the bytes, [h] arbitrary): the
+    validators that submitted evidence of the same type AND the same bytes as the winner hold 2/3,
+    or [h] has an explicit collision. *)
+Theorem winner_has_two_thirds_identical :
+  forall (K : Type) (keqb : K -> K -> bool) (h : Z -> Z -> K),
+  (forall a b, keqb a b = true <-> a = b) ->
+  forall (ord : list group -> list group) (sn : snapshot) (evs : list evidence) (w : evidence),
+  (forall gs, Permutation (ord gs) gs) ->
+  verify_evidence keqb (code_key h) ord sn evs = Winner w ->
+  (exists t d t' d', (t, d) <> (t', d') /\ h t d = h t' d') \/
+  2 * sn_total sn <= 3 * power sn (map ev_val (filter (identical w) evs)).
+Proof. exact @winner_two_thirds_identical_code_key. Qed.
+Print Assumptions winner_has_two_thirds_identical.
+
+(** With one entry per validator (what AddEvidence maintains, see latest_submission_counts) no
+    validator is counted twice in that sum. *)
+Theorem winner_backers_counted_once :
+  forall (K : Type) (keqb : K -> K -> bool) (gk : Z -> Z -> K) (evs : list evidence) (k : K),
+  NoDup (map ev_val evs) -> NoDup (backers keqb gk evs k).
+Proof. exact @backers_nodup. Qed.
+Print Assumptions winner_backers_counted_once.
+
+(** The result does not depend on the order in which the groups are visited: two disjoint sets
+    of validators cannot both hold 2/3 of a positive total. *)
+Theorem winner_unique :
+  forall (K : Type) (keqb : K -> K -> bool) (gk : Z -> Z -> K)
+         (ord ord' : list group -> list group) (sn : snapshot) (evs : list evidence),
+  (forall gs, Permutation (ord gs) gs) -> (forall gs, Permutation (ord' gs) gs) ->
+  0 < sn_total sn /\ sn_total sn = zsum (map snd (sn_vals sn)) /\ Forall (fun p => 0 <= snd p) (sn_vals sn) ->
+  NoDup (map ev_val evs) ->
+  verify_evidence keqb gk ord sn evs = verify_evidence keqb gk ord' sn evs.
+Proof. exact @verify_evidence_order_independent. Qed.
+Print Assumptions winner_unique.
+
+(** Completeness (so the statements above are not vacuous): evidence whose key is backed by 2/3 wins. *)
+Theorem two_thirds_on_one_key_wins :
+  forall (K : Type) (keqb : K -> K -> bool) (gk : Z -> Z -> K),
+  (forall a b, keqb a b = true <-> a = b) ->
+  forall (ord : list group -> list group) (sn : snapshot) (evs : list evidence) (e : evidence),
+  (forall gs, Permutation (ord gs) gs) ->
+  0 < sn_total sn /\ sn_total sn = zsum (map snd (sn_vals sn)) /\ Forall (fun p => 0 <= snd p) (sn_vals sn) ->
+  NoDup (map ev_val evs) -> existsb ev_bad evs = false -> In e evs ->
+  2 * sn_total sn <= 3 * power sn (backers keqb gk evs (ev_key gk e)) ->
+  exists w, verify_evidence keqb gk ord sn evs = Winner w /\ ev_key gk w = ev_key gk e.
+Proof. exact @two_thirds_identical_wins. Qed.
+Print Assumptions two_thirds_on_one_key_wins.
+
+(** Evidence from addresses that are not in the snapshot changes nothing (wherever it sits in the
+    list): same outcome class, and the same winning key, as without it.  The side condition is
+    what the code does: an outsider's proof that cannot be unpacked still aborts the call. *)
+Theorem outsiders_ignored :
+  forall (K : Type) (keqb : K -> K -> bool) (gk : Z -> Z -> K),
+  (forall a b, keqb a b = true <-> a = b) ->
+  forall (ord ord' : list group -> list group) (sn : snapshot) (evs : list evidence),
+  (forall gs, Permutation (ord gs) gs) -> (forall gs, Permutation (ord' gs) gs) ->
+  0 < sn_total sn /\ sn_total sn = zsum (map snd (sn_vals sn)) /\ Forall (fun p => 0 <= snd p) (sn_vals sn) ->
+  NoDup (map ev_val evs) ->
+  (forall e, In e evs -> insider (sn_vals sn) (ev_val e) = false -> ev_bad e = false) ->
+  match verify_evidence keqb gk ord sn evs,
+        verify_evidence keqb gk ord' sn (filter (fun e => insider (sn_vals sn) (ev_val e)) evs) with
+  | Winner x, Winner y => ev_key gk x = ev_key gk y
+  | NotAchieved, NotAchieved => True
+  | Failed, Failed => True
+  | _, _ => False
+  end.
+Proof. exact @outsiders_ignored_gen. Qed.
+Print Assumptions outsiders_ignored.
+
+(** AddEvidence, over every sequence of submissions: one entry per validator, and the entry is
+    the validator's LAST submission (type, bytes, unpackability). *)
+Theorem latest_submission_counts : forall (subs init : list evidence),
+  NoDup (map ev_val init) ->
+  NoDup (map ev_val (fold_left add_evidence subs init)) /\
+  forall v, lookup_ev (fold_left add_evidence subs init) v
+            = match lookup_ev (rev subs) v with Some p => Some p | None => lookup_ev init v end.
+Proof. exact add_evidence_latest. Qed.
+Print Assumptions latest_submission_counts.
+
+(** VerifyGasEstimates elects only with 2/3 of the snapshot behind the submitted estimates, and
+    what it elects is the (non-zero) median, which lies between two submitted values. *)
+Theorem estimate_needs_two_thirds : forall (sn : snapshot) (es : list estimate) (w : Z),
+  verify_gas_estimates sn es = Elected w ->
+  (3 * power sn (map es_val es) >= 2 * sn_total sn /\ w = median64 (map es_value es) /\ w <> 0 /\ es <> []) /\
+  (Forall (fun e => in_u64 (es_value e)) es ->
+   exists a b, In a es /\ In b es /\ es_value a <= w <= es_value b).
+Proof.
+  exact (fun sn es w H =>
+    conj (match estimate_two_thirds sn es w H with conj a b => conj (Z.le_ge _ _ a) b end)
+         (fun Hr => proj2 (estimate_two_thirds_median sn es w Hr H))).
+Qed.
+Print Assumptions estimate_needs_two_thirds.
+
+(** Over all histories of one queued message (estimates added, SetElectedGasEstimate called with
+    any value, end-blocks under any snapshots, in any order): once an estimate is elected it never
+    changes; the requires-estimation flag never changes; estimates are only appended, one per
+    validator. *)
+Theorem elected_never_changes : forall (ops : list qm_op) (m : qmsg),
+  (q_elected m <> 0 -> q_elected (fold_left qm_step ops m) = q_elected m) /\
+  q_requires (fold_left qm_step ops m) = q_requires m /\
+  exists r, q_estimates (fold_left qm_step ops m) = q_estimates m ++ r /\
+            (NoDup (map es_val (q_estimates m)) -> NoDup (map es_val (q_estimates (fold_left qm_step ops m)))).
+Proof. exact (fun ops m => conj (elected_stays ops m) (conj (requires_stays ops m) (estimates_append_only ops m))). Qed.
+Print Assumptions elected_never_changes.
+
+(** When only the chain's own operations act on the message, a non-zero elected estimate is the
+    result of VerifyGasEstimates at some end-block on the estimates present then (hence, by
+    estimate_needs_two_thirds, a median backed by 2/3 of that block's snapshot). *)
+Theorem elected_estimate_came_from_quorum : forall (ops : list qm_op) (m0 : qmsg),
+  q_elected m0 = 0 -> Forall system_op ops -> q_elected (fold_left qm_step ops m0) <> 0 ->
+  exists sn pre rest,
+    In (OpEndBlock sn) ops /\
+    q_estimates (fold_left qm_step ops m0) = (q_estimates m0 ++ pre) ++ rest /\
+    verify_gas_estimates sn (q_estimates m0 ++ pre) = Elected (q_elected (fold_left qm_step ops m0)).
+Proof. exact elected_came_from_quorum. Qed.
+Print Assumptions elected_estimate_came_from_quorum.
